@@ -318,7 +318,14 @@ func baseRawSet(L *LState) int {
 
 func baseSelect(L *LState) int {
 	L.CheckTypes(1, LTNumber, LTString)
-	switch lv := L.Get(1).(type) {
+	sel := L.Get(1)
+	if str, ok := sel.(LString); ok && string(str) != "#" {
+		// a selector given as a numeric string
+		if num, ok := argNumber(str); ok {
+			sel = num
+		}
+	}
+	switch lv := sel.(type) {
 	case LNumber:
 		idx := int(lv)
 		num := L.GetTop()
